@@ -122,7 +122,7 @@ def replay_scripts(chk, binary):
     batch = 2500
     for i in range(0, len(cases), batch):       # a subprocess per batch: a crash is attributed to the batch's journal
         rows += run_harness(binary, "TestVerifC20Scripts", cases[i:i + batch], "b")
-    steps = commits = secrets = delivered = returned = diverged = 0
+    steps = commits = secrets = delivered = returned = diverged = soft = 0
     covered = set()
     for r in rows:
         c = cases[r["script"]]
@@ -140,9 +140,14 @@ def replay_scripts(chk, binary):
         for v in (r.get("violations") or []):
             chk.violation({"kind": v["kind"], "what": VIOLATION_WHAT.get(v["kind"], v["kind"]) + ": " + v["what"], "mode": "script",
                            "step": v["step"], "case": c, "events": (r.get("events") or [])[-120:]})
+        if r.get("soft"):
+            soft += 1
+            if soft <= 5:
+                chk.note("DIVERGENCE (projection only) script %d (%s): %s" % (r["script"], c["gen"], r["soft"][0]))
         if r.get("diverge") and not r.get("violations"):
             diverged += 1
-            chk.note("DIVERGENCE script %d (%s): %s" % (r["script"], c["gen"], r["diverge"][0]))
+            if diverged <= 10:
+                chk.note("DIVERGENCE script %d (%s): %s" % (r["script"], c["gen"], r["diverge"][0]))
     chk.traces(len(rows))
     chk.evaluated(None, steps)
     for r in rows[:3]:
@@ -150,7 +155,7 @@ def replay_scripts(chk, binary):
     chk.parts["script_replay"] = {"edges_of_the_model": edges, "scripts_replayed": len(rows), "steps_compared": steps,
                                   "distinct_edges_covered": len(covered), "write_generations_committed": commits,
                                   "successor_secrets_checked": secrets, "payloads_read": delivered,
-                                  "UpdateKeys_returned": returned, "scripts_diverging": diverged}
+                                  "UpdateKeys_returned": returned, "scripts_diverging": diverged, "scripts_with_projection_only_differences": soft}
     if (commits == 0 or returned == 0 or delivered == 0 or steps < 1000) and not chk.violations:
         raise vlib.Inconclusive("vacuous script replay (%d steps, %d commits, %d returns, %d payloads)" % (steps, commits, returned, delivered))
     if diverged > max(3, len(rows) // 50) and not chk.violations:
